@@ -20,7 +20,7 @@ LEVEL = 'exploration'
 TECHNIQUE = ('exhaustive enumeration of the semantic-option table (singles; '
              'pairs sliced by seed or complete) against the real compilers, '
              'with behavioural probes as oracle')
-RULE = ('Options: define (plain / numeric / string with spaces), std (per '
+RULE = ('Options: define (plain / numeric / string with spaces / empty), std (per '
         'language), include_dir, system include_dir, warning all / extra / '
         'error / disable, debug, optimize disable / size / speed / linktime, '
         'pic, pthread, sanitize, static, entry_point, lib, lib_dir + lib, '
@@ -53,6 +53,8 @@ OPTIONS = [
     ('define-num', 'c', "opts.define('MYDEF', '42')", 'MYDEF', '42'),
     ('define-str', 'c', "opts.define('MYSTR', '\"hi there\"')", 'MYSTR',
      'hi there'),
+    # defined to nothing (not to 1)
+    ('define-empty', 'c', "opts.define('MYEMPTY', '')", 'MYEMPTY', '[]'),
     ('include', 'c', "opts.include_dir(header_directory('inc'))", 'INC',
      '42'),
     ('sysinclude', 'c',
@@ -131,6 +133,9 @@ int main(int argc, char **argv) {
 #endif
 #ifdef MYDEF
   printf("MYDEF=%d\n", MYDEF + 0);
+#endif
+#ifdef MYEMPTY
+  printf("MYEMPTY=[%s]\n", STR(MYEMPTY));
 #endif
 #ifdef MYSTR
   printf("MYSTR=%s\n", MYSTR);
